@@ -13,7 +13,14 @@ Calibration
   (first two elements are truncated, then extrapolated): excluded from the generator.
 * float arange: NumPy computes start + i*((start+step)-start) in the output dtype, dask computes
   blockstart = start + n*step per chunk: equal within n*eps(dtype)*max(|start|,|stop|).
+* arange with an unsigned dtype whose mathematical values (or stop) leave the dtype's range wraps around in NumPy
+  (value dependent, OverflowError for some positions): excluded from the generator.  (The repository's own
+  test_arange_cast_float_int_step is an xfail for the same reason: "edge behavior is not specified by NumPy".)
 * empty/empty_like: values are arbitrary by definition; only shape/dtype/chunks are compared.
+* exceptions re-raised by the backend dispatch wrapper (backends.py:wrapper) are classified by their __cause__;
+  'auto' next to a zero-length non-auto dimension gets one label whatever the routine (it is C23's finding).
+* da.eye with M > N and a chunk size > N: missing blocks, blocks of the wrong shape and wrong values are one
+  mechanism and get one label (blocks-inconsistent-with-chunks).
 * eye accepts only an int or str chunks argument (documented); tri uses only the first chunk
   size of each axis (values/shape/dtype/sum(chunks) are still what the statement demands).
 * meshgrid returns a tuple in NumPy 2 and a list before: the container type is not compared.
@@ -40,9 +47,13 @@ RULE = ("cases = (routine, arguments, chunks specification). Complete part: aran
         "result (or an input for diag/diagonal/meshgrid) is split into >= 2 chunks on some axis; distinct = distinct "
         "(routine, arguments, chunks).")
 ASSUMPTIONS = ["NumPy 2.x defines the expected values and dtype", "sync scheduler (threads for a tenth)"]
-BUDGET = {"quick": 45, "thorough": 540}
-FLOORS = {"quick": {"evaluations": 1, "distinct_nontrivial": 1, "counters": {"compared": 1}, "max_skipped_fraction": 0.3},
-          "thorough": {"evaluations": 1, "distinct_nontrivial": 1, "counters": {"compared": 1}, "max_skipped_fraction": 0.3}}
+BUDGET = {"quick": 90, "thorough": 560}
+FLOORS = {"quick": {"evaluations": 2900, "distinct_nontrivial": 1200,
+                    "counters": {"compared": 3000, "lazy_meta_checked": 3000, "blocks_checked": 250, "retstep_compared": 100},
+                    "sets": {"chunk_spec_kinds": 30}, "max_skipped_fraction": 0.15},
+          "thorough": {"evaluations": 45000, "distinct_nontrivial": 18000,
+                       "counters": {"compared": 46000, "lazy_meta_checked": 46000, "blocks_checked": 4000, "retstep_compared": 1600},
+                       "sets": {"chunk_spec_kinds": 36}, "max_skipped_fraction": 0.15}}
 EXHAUSTIVE_SPACE = ("arange(n), n<=6 x all explicit chunkings and int chunk sizes 1..n+1; eye(n), n<=6 x k in {-1,0,1} x int "
                     "chunk sizes 1..n+1; tri(n), n<=5 x all pairs of explicit chunkings and int chunk sizes 1..n+1")
 CLAIM = ("Every generated creation call was executed by the real dask.array and compared with the NumPy routine on the "
@@ -51,7 +62,23 @@ CLAIM = ("Every generated creation call was executed by the real dask.array and 
          "exception inside the domain on the executions observed.")
 LEVEL_NOTE = "NumPy is the reference; chunk specifications limited to the forms each routine documents"
 TECHNIQUE = "runtime monitoring: NumPy differential oracle over generated creation calls and complete small chunking spaces"
-PENDING = {}
+PENDING = {
+    "eye:M>N&chunk>N:blocks-inconsistent-with-chunks":
+        "da.eye(N, chunks=c, M=M) with M > N and c > N (or 'auto'/-1): the clipped row chunk size N is reused as the column "
+        "chunk size, the graph lacks blocks / holds blocks of the wrong shape ('Missing dependency', wrong values)",
+    "eye:N==0&M>0:ZeroDivisionError@array/core.py:<genexpr>":
+        "da.eye(0, M=M>0): the row chunk size 0 is reused as the column chunk size -> ZeroDivisionError (NumPy: empty (0, M))",
+    "linspace:div<=0:step":
+        "da.linspace(..., retstep=True) with num - endpoint <= 0 returns step = stop - start (or its negative), NumPy returns nan",
+    "linspace:int-dtype:values":
+        "da.linspace(dtype=int) with several chunks: per-chunk start/stop are re-derived with float rounding and then floored, "
+        "elements on exact integer grid points (incl. the endpoint) come out one too small; depends on the chunking",
+    "diag:1d-input&in=dask&k!=0&zero-length:ZeroDivisionError@array/core.py:<genexpr>":
+        "da.diag(empty 1-d dask array, k != 0) raises ZeroDivisionError in pad/get_pad_shapes_chunks (NumPy: zeros((|k|, |k|)))",
+    "chunks-auto:zero-length-non-auto-dim:ZeroDivisionError@array/core.py:auto_chunks":
+        "chunks tuple mixing 'auto' with a zero-length dimension that is not 'auto' -> ZeroDivisionError in auto_chunks for every "
+        "creation routine (same mechanism as the C23 finding, DESIGN section 6 #22)",
+}
 
 DT = [None, "int64", "int32", "float64", "float32", "bool", "complex128", "uint8"]
 FRAC = [-2.5, -1.1, -0.3, 0.1, 0.25, 0.5, 0.7, 1.5, 2.2, 3.3, 1 / 3, 0.01, 1e-3, 2.0, -1.0]
@@ -127,7 +154,7 @@ def cases(tier, seed):
         for c in range(1, n + 2):
             yield {"space": "exhaustive", "op": "tri", "N": n, "M": None, "k": 0, "dtype": None, "chunks": {"t": "int", "v": c}}
     # ---- random part --------------------------------------------------------------------------
-    n = 8000 if tier == "quick" else 200000
+    n = 6000 if tier == "quick" else 100000
     ops = ["arange"] * 4 + ["linspace"] * 4 + ["eye"] * 3 + ["diag", "diag", "diagonal", "diagonal", "indices", "indices",
            "meshgrid", "meshgrid", "fromfunction", "fromfunction", "tri", "tri", "wrap", "wrap", "wrap", "like", "like", "like"]
     for _ in range(n):
@@ -286,18 +313,14 @@ def _feat(case, extra=()):
         f.append("frac" if any(isinstance(v, float) and not float(v).is_integer() for v in a) else "integral")
         if step < 0:
             f.append("neg-step")
-        if max(abs(v) for v in a) >= 10 ** 8:
-            f.append("large-start")
-        if case["dtype"]:
-            f.append("dtype")
     elif op == "linspace":
         div = case["num"] - 1 if case["endpoint"] else case["num"]
         if div <= 0:
             f.append("div<=0")   # NumPy: num - endpoint <= 0
+        elif case["dtype"] in ("int64",):
+            f.append("int-dtype")   # NumPy floors the float grid: ulp differences become off-by-one
         else:
             f.append("endpoint" if case["endpoint"] else "no-endpoint")
-            if case["dtype"] in ("int64",):
-                f.append("int-dtype")
     elif op in ("eye", "tri"):
         N, M = case["N"], case["M"]
         Me = N if M is None else M
